@@ -40,7 +40,7 @@ def ctx(name):
 
 
 FAMS = {"exact": 1, "matern_ard": 2, "fixednoise": 1, "fixednoise_learn": 1, "multitask": 1, "kiss": 1}
-FAMS_THOROUGH = dict(FAMS, fwdkw=1, sumprod=1, linearmean=1, zeromean=1, multitask_r0=1, matern05=1, matern25_ard=2)
+FAMS_THOROUGH = dict(FAMS, fixednoise_kiss=1, fwdkw=1, sumprod=1, linearmean=1, zeromean=1, multitask_r0=1, matern05=1, matern25_ard=2)
 
 
 def cells(tier, seed):
@@ -59,12 +59,18 @@ def cells(tier, seed):
     for q, post, fbp in itertools.product([1, 2], ["default", "fpv"], ["none", "per"]):
         # a model whose forward() takes a keyword argument that changes the prior: the same argument is given to get_fantasy_model
         out.append({"fam": "fwdkw", "mb": [], "fbp": fbp, "q": q, "pre": "default", "post": post, "depth": 2})
+    for q, post in itertools.product([1, 2], ["default", "fpv"]):
+        # KISS-GP with a fixed per-point noise; a model batch of shape (1, 2); inputs shared by a batch of models (n x d inputs, b x n targets)
+        out.append({"fam": "fixednoise_kiss", "mb": [], "fbp": "none", "q": q, "pre": "default", "post": post, "depth": 2})
+        for fbp in ("none", "per", "shared"):
+            out.append({"fam": "exact", "mb": [1, 2], "fbp": fbp, "q": q, "pre": "default", "post": post, "depth": 2})
+            out.append({"fam": "exact", "mb": [2], "fbp": fbp, "q": q, "pre": "default", "post": post, "depth": 2, "trainx": "shared"})
     if tier == "thorough":
         # deeper and wider: chains of four fantasies, three fantasy points, more kernels / means, a rank-2 model batch, eager / non-lazy kernels
         have = {util.jdump(c) for c in out}
         for fam, mb, fbp, q, pre, post in itertools.product(FAMS_THOROUGH, [(), (2,), (2, 1)], ["none", "per", "shared"], [1, 2, 3],
                                                             ["default", "fpv", "nolazy"], posts + ["nolazy", "eager0"]):
-            if fam in ("kiss", "multitask", "multitask_r0") and mb:
+            if fam in ("kiss", "fixednoise_kiss", "multitask", "multitask_r0") and mb:
                 continue
             c = {"fam": fam, "mb": list(mb), "fbp": fbp, "q": q, "pre": pre, "post": post, "depth": 4 if fam in ("exact", "fixednoise_learn") else 3}
             c3 = dict(c, depth=3)
@@ -81,7 +87,7 @@ def make_data(cell, seed):
     d = FAMS_THOROUGH[fam]
     g = util.gen(seed, "c04|" + util.jdump({k: cell[k] for k in ("fam", "mb")}))
     n, m = 5, 3
-    X = util.rand(g, *mb, n, d)
+    X = util.rand(g, *(() if cell.get("trainx") == "shared" else mb), n, d)
     t = 2 if fam.startswith("multitask") else None
     y = util.randn(g, *mb, n, t) if t else util.randn(g, *mb, n)
     Xs = util.rand(g, *mb, m, d)
@@ -186,7 +192,9 @@ def run_cell(cell, seed):
     feats = {k: cell[k] for k in ("fam", "fbp", "q", "pre", "post")}
     feats["mb"] = len(mb)
     d = FAMS_THOROUGH[fam]
-    tol = 1e-6 if fam == "kiss" else 1e-8
+    tol = 1e-6 if fam.endswith("kiss") else 1e-8
+    if cell.get("trainx"):
+        feats["trainx"] = cell["trainx"]
     X, y, Xs, noise = make_data(cell, seed)
     g = util.gen(seed, "c04f|" + util.jdump(cell))
     src = build(cell, seed, X, y, noise, mb)
